@@ -54,6 +54,13 @@ def check(ctx, R):
         _service(ctx, R, roles, T)
         _streaming_service(ctx, R, roles, T)
         _wrappers(ctx, R, roles, T)
+    # (5) stream isolation: "nothing the device wrote on another stream ever appears in the result" rests on the pump
+    # matching packets by (remote id, local id); the same rule instances as in C06 are evaluated here
+    from ..locks import LockInfo
+    from .c06 import _pump as pump_rules, _args_match as args_match_rules
+    for roles in all_roles(ctx):
+        pump_rules(ctx, R, roles, LockInfo(ctx, roles), T)
+    args_match_rules(ctx, R, T)
     arg_rule(ctx, R, "shell", "ARG-shell", min_count=10)
     R.assume("bytes.join / bytes.decode(errors='backslashreplace') behave as documented (the latter never raises)")
     R.undecided("the UTF-8 result values themselves (library semantics, trusted)")
